@@ -4,7 +4,7 @@
 (*  musig  {pks[], tweaks[{t,x}], pubnonces[{r1,r2}], msg, adaptor ("" or  *)
 (*          secret), psigs[], verifies[], aggpk, r, s, valid, adapted_s,   *)
 (*          adapted_valid, extracted}                                      *)
-(*  dh     {d, q: point, size, info, hf, out}      diffie_hellman (side A) *)
+(*  dh     {c: curve, d, q: point, size, info, hf, out}  diffie_hellman    *)
 (*  bie1   {d, q: point, iv, ke, km}               ecies.derive_keys       *)
 (*  agree  {what, a, b}   two parties' results that must be equal          *)
 (*  holds  {what, ok}     a round trip that must succeed (ok = TRUE)       *)
@@ -77,7 +77,7 @@ Check(e) ==
     [] e.op = "xdh" -> ToHex(XdhSecret(CurveOf(e.c), HX(e.ella), HX(e.ellb), N(e.q), e.party)) = e.out
     [] e.op = "commit" -> LET cm == Commit(K1, S256, N(e.r), N(e.v)) IN IF e.refused THEN ~cm.ok ELSE cm.ok /\ cm.Q = PtOf(e.out)
     [] e.op = "secondgen" -> SecondGenerator(K1, S256) = PtOf(e.out)
-    [] e.op = "dh" -> LET r == DhKey(K1, HF(e.hf), N(e.d), PtOf(e.q), e.size, HX(e.info)) IN
+    [] e.op = "dh" -> LET r == DhKey(CurveOf(e.c), HF(e.hf), N(e.d), PtOf(e.q), e.size, HX(e.info)) IN
                         IF r[1] = "refused" THEN e.out = "refused" ELSE e.out = ToHex(r[2])
     [] e.op = "bie1" -> Bie1Keys(N(e.d), PtOf(e.q)) = <<HX(e.iv), HX(e.ke), HX(e.km)>>
     [] e.op = "agree" -> e.a = e.b /\ e.a # "refused"
@@ -107,7 +107,7 @@ Diag == i > 0 => PrintT(<<"DIAG", i, <<Trace[i].op,
               [] Trace[i].op = "spsend" -> LET e == Trace[i] IN
                      [j \in 1..Len(e.rs) |-> ToHex(SenderOutputs([q \in 1..Len(e.inputs) |-> [d |-> N(e.inputs[q].d), taproot |-> e.inputs[q].taproot]],
                                                                   [q \in 1..Len(e.outpoints) |-> HX(e.outpoints[q])], RsOf(e))[j])]
-              [] Trace[i].op = "dh" -> DhKey(K1, HF(Trace[i].hf), N(Trace[i].d), PtOf(Trace[i].q), Trace[i].size, HX(Trace[i].info))
+              [] Trace[i].op = "dh" -> DhKey(CurveOf(Trace[i].c), HF(Trace[i].hf), N(Trace[i].d), PtOf(Trace[i].q), Trace[i].size, HX(Trace[i].info))
               [] Trace[i].op = "dleq" -> DleqVerify(PtOf(Trace[i].a), PtOf(Trace[i].b), PtOf(Trace[i].c), HX(Trace[i].proof), PtOf(Trace[i].g), HX(Trace[i].msg))
               [] OTHER -> "-">>>>)
 =============================================================================
